@@ -72,7 +72,10 @@ Proof.
   { intros E. eapply (stage_script_ok cand ceqb); [exact Hst|apply Hscr; exact E]. }
   rewrite mbind_mlift in H.
   destruct (stv_init (with_m cfg m2) p1) as [t|e0] eqn:Hinit.
-  2:{ inversion H; subst e0. left. exact (proj1 (stv_init_err cand _ _ _ Hwf1 Hinit)). }
+  2:{ inversion H; subst e0.
+      destruct (stv_init_err_gen cand _ _ _ Hwf1 Hinit) as [(He & Ht & _)|(He & _)].
+      - right. right. left. split; [exact Ht|exact He].
+      - left. exact He. }
   unfold mbind at 1 in H.
   destruct (run_stv (with_m cfg m2) p1 sa) as [[ssts sb]|e0] eqn:Hrun.
   2:{ inversion H; subst e0.
